@@ -265,6 +265,7 @@ func c07Check(c C07Case, rec *Recorder) *Disc {
 	m := freshMW(s0)
 	var order []COp
 	var cfgRes []cfgObs
+	early := NewServer(m.Wrap) // a handler wrapped in the START state, used again once everything has completed
 	got, timedOut := runWithPlan(m, req, c.Plan, &order, &cfgRes)
 	rec.Eval(1)
 	if timedOut {
@@ -319,6 +320,12 @@ func c07Check(c C07Case, rec *Recorder) *Disc {
 	after := SuiteSig(NewServer(m.Wrap).Wrap, later)
 	wantAfter := SuiteSig(freshMW(final).Wrap, later)
 	rec.Eval(len(after))
+	// ... whichever state the handler was WRAPPED in: the one wrapped before the request started follows, too
+	if afterEarly := SuiteSig(early.Wrap, later); firstDiff(wantAfter, afterEarly) >= 0 {
+		j := firstDiff(wantAfter, afterEarly)
+		return discf("start %s, operations %v: once everything has completed the state is %s, but the handler that was wrapped in the start state answers the later request {%s} with %s instead of %s",
+			s0, hist, final, later[j].Brief(), abbrev(afterEarly[j], 400), abbrev(wantAfter[j], 400))
+	}
 	if j := firstDiff(wantAfter, after); j >= 0 {
 		return discf("start %s, request {%s}, operations injected at %v in order %v: once everything has completed the state is %s, but the later request {%s} is answered with %s instead of that state's %s",
 			s0, req.Brief(), planKeys(c.Plan), hist, final, later[j].Brief(), abbrev(after[j], 400), abbrev(wantAfter[j], 400))
